@@ -266,6 +266,10 @@ func check14(c *Case, o *Obs, rec Rec) (vs []viol, inconclusive string) {
 			key := strings.ToLower(h.Name)
 			got, ok := rec.MD[key]
 			if !ok {
+				if len(c.Hop) == 1 && c.Hop[0][0] == "Connection" && strings.Contains(strings.ToLower(c.Hop[0][1]), key) {
+					add("incoming-key-missing", "named-in-connection-header,"+h.valueClass(), fmt.Sprintf("request header %+q, nominated in %+q, is not in the handler's incoming metadata", h.Name, "Connection: "+c.Hop[0][1]))
+					continue
+				}
 				add("incoming-key-missing", nameClass(h.Name)+","+h.valueClass(), fmt.Sprintf("request header %+q (%d values) is not in the handler's incoming metadata under %+q; keys: %+q", h.Name, len(h.Vals), key, sortedKeys(rec.MD)))
 				continue
 			}
